@@ -24,13 +24,23 @@ CLAIM = dict(
          "with Bernoulli(p) coins the one-step law of basic_discrete_SIR / basic_discrete_SIS is the Reed-Frost / discrete-SIS product formula; "
          "percolate_network keeps each edge independently with probability p on the same node set; on a common symmetric table of coins "
          "percolation_based_discrete_SIR and basic_discrete_SIR return the same rows and histories (deferred decisions, pathwise). "
+         "The deferred-decision lift is proved too (coq/Props/C12law.v, over the `law` semantics of Base/Samp.v): for every graph, initial sets, horizon, iteration order, p and EVERY event on "
+         "the whole output, the law of a whole run of basic_discrete_SIR (one fresh coin per tested contact) equals the law of flipping one coin per arc first and then running the "
+         "deterministic simulator (= BFS generations of the percolated digraph), in both return modes; total mass 1 (both modes); final size = out-component of I0 in the percolated digraph; "
+         "percolation_based_discrete_SIR (one coin per undirected edge) and basic_discrete_SIR agree in law on every event of the rows and node histories (both modes); basic_discrete_SIS = one coin per (step, arc). "
+         "Chain form (C12_chain_law, C12_sis_chain_law): the law of the sequence of generation sets of a whole run is that of the Reed-Frost / discrete-SIS Markov chain (product of the one-step factors) stopped by the loop condition. "
+         "Deterministic skeleton of basic_discrete_SIS (coq/Props/C12sis.v): under a step-indexed table the run is the generation sequence J_{k+1} = {v not in J_k with a successful contact from J_k at step k}, rows, histories, fuel. "
+         "Order independence (coq/Props/C12ord.v): with or without a recovery test and for basic_discrete_SIS, any two iteration orders of the Python sets give the same rows, the same node histories and the same transmissions up to the order of the entries of one step. "
          "Tie: extracted model vs /repo on the same contact tables, exhaustively over all Bernoulli outcomes on small graphs, plus draw-by-draw replay of the p-based functions.",
     design='DESIGN.md section 4, C12',
     technique='Coq proof (BFS characterisation by induction over generations, product law by induction over the contact list) + extracted-model/implementation correspondence + independent BFS oracle',
     note="random.random uniform on [0,1), random.choice/sample uniform and independent draws are assumed (DESIGN 2.3). Equality in law of percolation_based_discrete_SIR "
-         "and basic_discrete_SIR rests on the principle of deferred decisions (cited); the pathwise statement on a common table of coins is proved (C12_perc_sir_pathwise) and checked dynamically. "
-         "The BFS theorem is proved for test_recovery=None and initial_infecteds given; runs with a user recovery test (BFS times for rules that are functions of the pair) and the rho path "
-         "are covered by the correspondence and the independent oracle only. The draw-by-draw replay of the default-rule program is limited to runs with at most 10 uniform draws "
+         "and basic_discrete_SIR (deferred decisions) is proved for every event of the rows and node histories, both return modes (C12_perc_basic_hist_law); the joint law of the transmission lists "
+         "(which infector random.choice names) is not compared. Pathwise equality on a common table of coins (C12_perc_sir_pathwise) is also checked dynamically. "
+         "The BFS theorem is proved for test_recovery=None (C12_dsir_bfs) and WITH a user recovery test for table rules that are functions of the pair (coq/Props/C12rec.v: "
+         "C12rec_dsir_bfs -- same S column / infection times = BFS distances, infectious until the test first succeeds, S+I+R=N, node histories; every fuel: returns iff the stop index is within the fuel), "
+         "initial_infecteds given; rules that depend on the age of the source under a recovery test are covered by Props/C04disc.v / C09disc.v / C10disc.v (every rule, every draw script: what such runs are) and by the correspondence; "
+         "the rho path: Props/C05disc.v (a rho run is a run from an explicit duplicate-free set). The draw-by-draw replay of the default-rule program is limited to runs with at most 10 uniform draws "
          "(the extracted sampler tree is strict in both branches of every Flip). "
          "Domain: simple graphs, duplicate-free disjoint initial sets inside the graph, integer horizons (tmax - tmin integer) for the history clauses.")
 
@@ -241,6 +251,43 @@ def run(run, tier):
     import EoN.simulation as sim
     rng = run.rng
     props = C.check_props('C12')
+    # the deferred-decision lift (law of the whole run): Props/C12law.v joins the obligations
+    xp = C.check_props('C12law')
+    props['theorems'] = list(props['theorems']) + list(xp['theorems'])
+    props['axioms'] = dict(props['axioms'], **xp['axioms'])
+    if not xp['ok']:
+        props['ok'] = False
+        props['log'] = (props.get('log') or '') + ' | ' + xp['log'][-400:]
+        run.violation('C12/proof/C12law', 'Props/C12law.v no longer checks: %s' % xp['log'][-400:],
+                      {'broken': 'coq/Props/C12law.v', 'log': xp['log']}, no_input=True)
+    # independence from the set iteration order with a recovery test, for SIS, and of the
+    # transmissions (as multisets): Props/C12ord.v joins the obligations
+    xo = C.check_props('C12ord')
+    props['theorems'] = list(props['theorems']) + list(xo['theorems'])
+    props['axioms'] = dict(props['axioms'], **xo['axioms'])
+    if not xo['ok']:
+        props['ok'] = False
+        props['log'] = (props.get('log') or '') + ' | ' + xo['log'][-400:]
+        run.violation('C12/proof/C12ord', 'Props/C12ord.v no longer checks: %s' % xo['log'][-400:],
+                      {'broken': 'coq/Props/C12ord.v', 'log': xo['log']}, no_input=True)
+    # runs WITH a user recovery test (age-independent table rules, any test): Props/C12rec.v joins the obligations
+    xr = C.check_props('C12rec')
+    props['theorems'] = list(props['theorems']) + list(xr['theorems'])
+    props['axioms'] = dict(props['axioms'], **xr['axioms'])
+    if not xr['ok']:
+        props['ok'] = False
+        props['log'] = (props.get('log') or '') + ' | ' + xr['log'][-400:]
+        run.violation('C12/proof/C12rec', 'Props/C12rec.v no longer checks: %s' % xr['log'][-400:],
+                      {'broken': 'coq/Props/C12rec.v', 'log': xr['log']}, no_input=True)
+    # basic_discrete_SIS under table rules = the pure SIS generation sequence: Props/C12sis.v joins the obligations
+    xs = C.check_props('C12sis')
+    props['theorems'] = list(props['theorems']) + list(xs['theorems'])
+    props['axioms'] = dict(props['axioms'], **xs['axioms'])
+    if not xs['ok']:
+        props['ok'] = False
+        props['log'] = (props.get('log') or '') + ' | ' + xs['log'][-400:]
+        run.violation('C12/proof/C12sis', 'Props/C12sis.v no longer checks: %s' % xs['log'][-400:],
+                      {'broken': 'coq/Props/C12sis.v', 'log': xs['log']}, no_input=True)
     ok, log = C.build_driver('disc')
     if not ok:
         run.violation('C12/build', 'extracted model does not build: ' + log[-500:], {'log': log[-3000:]}, no_input=True)
@@ -339,7 +386,7 @@ def run(run, tier):
                      samples, {'distribution': stats, 'mismatches': mism, 'oracle_failures': obad,
                                'exhaustive_part': 'all graphs <=%d nodes x all coin tables' % (3 if quick else 4)})
     run.assumptions += ['random.random() uniform on [0,1), random.choice / random.sample uniform, draws independent (DESIGN 2.3): the law theorems are statements about `law` of the sampler program',
-                        'equality in law of percolation_based_discrete_SIR and basic_discrete_SIR: principle of deferred decisions (cited); the pathwise equality on a common table of coins is proved (C12_perc_pathwise) and checked dynamically']
+                        'deferred decisions are PROVED over `law` (Props/C12law.v): law of the whole run = law of percolate-all-arcs-first-then-BFS, for every event; what remains assumed is only the reading of the random API above']
 
 
 def replay(rp):
